@@ -46,7 +46,9 @@ pub fn ascii_of_tok(t: &str) -> String {
 /// Stdout is not kept locked, so code under test that prints to stdout cannot dead-lock; use
 /// `run_lines_marked` when it does print, so that the orchestrator can tell the lines apart.
 pub fn run_lines(f: impl Fn(&[&str]) -> String + std::panic::RefUnwindSafe) {
-    run_lines_with("", f);
+    // always marked: whatever the code under test (or a change to it) prints to stdout must not be
+    // taken for an observation line
+    run_lines_with("@@", f);
 }
 /// Like `run_lines`, but every observation line starts with "@@"; all other stdout lines are
 /// ignored by the orchestrator.
